@@ -267,13 +267,20 @@ impl Port for SystemModule {
     fn read(&self, address: u64, buf: &mut [u8]) -> GenTlResult<usize> {
         let address = address as usize;
         let len = buf.len();
-        let data = self.vm.read_raw(address..address + len)?;
+        let end = address
+            .checked_add(len)
+            .ok_or(GenTlError::InvalidAddress)?;
+        let data = self.vm.read_raw(address..end)?;
         buf.copy_from_slice(data);
         Ok(len)
     }
 
     fn write(&mut self, address: u64, data: &[u8]) -> GenTlResult<usize> {
-        self.vm.write_raw(address as usize, data)?;
+        let address = address as usize;
+        if address.checked_add(data.len()).is_none() {
+            return Err(GenTlError::InvalidAddress);
+        }
+        self.vm.write_raw(address, data)?;
 
         self.handle_events()?;
 
